@@ -194,6 +194,30 @@ def end_to_end(chk, P, prefix="C07", only=None):
                         if k_ == "callsite":
                             tested.add(v_)
                 ret_roots = {v_ for k_, v_ in common.roots(ps.ret()) if k_ == "callsite"}
+                # which flush outcomes does the returned value carry?  (a small interpretation of the path: an accumulator updated with `&=` / `&&`
+                # keeps what it held, a plain assignment forgets it)
+                env = {}
+                def val(op):
+                    if not isinstance(op, dict):
+                        return set()
+                    pl = op.get("m") or op.get("c")
+                    return set(env.get(pl["l"], ())) if pl else set()
+                for bbp in path:
+                    for st in b.blocks[bbp]["stmts"]:
+                        if st["k"] == "assign" and "p" not in st["place"]:
+                            acc = set()
+                            for o_ in b.rvalue_operands(st["rv"]):
+                                acc |= val(o_)
+                            env[st["place"]["l"]] = acc
+                    t_ = b.blocks[bbp]["term"]
+                    if t_["k"] == "call" and t_.get("dest") is not None and "p" not in t_["dest"]:
+                        acc = set()
+                        for a_ in t_["args"]:
+                            acc |= val(a_)
+                        if any(c.bb == bbp for c in fl):
+                            acc = acc | {bbp}
+                        env[t_["dest"]["l"]] = acc
+                ret_roots |= set(env.get(0, ()))
                 for c in on_path:
                     if c.bb not in tested and c.bb not in ret_roots:
                         return False, ("the outcome of the signal flush at %s is neither tested nor part of what OtlpInner::blocking_flush returns on a path that ran "
